@@ -768,7 +768,7 @@ def gen_scene(rng):
         cfg["state"] = {"type": "lla", "latitude": float(lat), "longitude": float(lon), "altitude": rng.choice([0.0, 0.1, round(rng.uniform(0, 4.5), 3)])}
     desc["sensor_cfg"] = cfg
     nb = rng.randrange(0, 6)
-    desc["tmeta"] = [{"id": 11001 + i, "vcs": round(10 ** rng.uniform(-1.5, 2), 5), "refl": round(rng.uniform(0.05, 0.9), 4)} for i in range(nb + 1)]
+    desc["tmeta"] = [{"id": 11001 + i, "vcs": (rng.choice([1.0, 10.0, 25.0]) if rng.random() < 0.6 else round(10 ** rng.uniform(-1.5, 2), 5)), "refl": round(rng.uniform(0.05, 0.9), 4)} for i in range(nb + 1)]
     return desc
 
 
